@@ -159,7 +159,10 @@ Value = Tuple[Any, ...]     # ('mod', name) | ('obj', module, qual tuple)
 
 class Gen:
     def __init__(self, rng: random.Random, size: str = 'normal', shadow: float = 0.0, reexport: float = 0.35,
-                 star: float = 0.5, simple: bool = False):
+                 star: float = 0.5, simple: bool = False, prefix_roots: bool = False):
+        # prefix_roots = every later root is named <first root><own name>: the name of one root is a strict string prefix of
+        # the names of the others (core / coretools), the shorter one being added first (roots_of sorts)
+        self.prefix_roots = prefix_roots
         # simple = the subset of the whole-project theorem: imports of every form, defs, classes; no alias
         # assignment, no base expression, no star import, no re-export
         self.simple = simple
@@ -206,11 +209,18 @@ class Gen:
                     c = name + '.' + self.fresh('p', 0.1)
                     self.children[name].append(c)
                     pkg(c, depth + 1)
+        first: List[str] = []
+
+        def rootname(n: str) -> str:
+            if self.prefix_roots and first:
+                n = first[0] + n
+            first.append(n)
+            return n
         for _ in range(nroots):
             if r.random() < 0.75:
-                pkg(self.fresh('p', 0.0), 1)
+                pkg(rootname(self.fresh('p', 0.0)), 1)
             else:
-                n = self.fresh('m', 0.0)
+                n = rootname(self.fresh('m', 0.0))
                 self.mods[n] = {'name': n, 'pkg': False, 'all': None, 'body': []}
 
     # -- namespaces as the generator understands them
